@@ -3,6 +3,7 @@ package gen
 
 import (
 	"bytes"
+	"fmt"
 
 	"github.com/jamf/regatta/regattapb"
 	"pgregory.net/rapid"
@@ -212,6 +213,9 @@ func (p *Pool) Txn(t *rapid.T, label string, readOnly bool) *regattapb.Txn {
 		x.Compare = append(x.Compare, p.Compare(t, label+".cmp"))
 	}
 	ns := rapid.IntRange(0, 4).Draw(t, label+".nsucc")
+	if rapid.IntRange(0, 11).Draw(t, label+".longbranch") == 0 {
+		ns = rapid.IntRange(13, 30).Draw(t, label+".nlongsucc")
+	}
 	for i := 0; i < ns; i++ {
 		x.Success = append(x.Success, p.RequestOp(t, label+".succ", readOnly))
 	}
@@ -252,12 +256,23 @@ func (p *Pool) Command(t *rapid.T, label string, o CmdOpts) *regattapb.Command {
 	case k <= 12:
 		c.Type = regattapb.Command_PUT_BATCH
 		n := rapid.IntRange(0, 4).Draw(t, label+".nbatch")
+		if rapid.IntRange(0, 5).Draw(t, label+".longbatch") == 0 {
+			// batches as a table restore / a busy replication stream produces them: dozens of pairs, keys repeated (the last one wins)
+			n = rapid.IntRange(13, 60).Draw(t, label+".nlong")
+			for i := 0; i < n; i++ {
+				c.Batch = append(c.Batch, &regattapb.KeyValue{Key: p.Key(t, label+".bkey"), Value: []byte(fmt.Sprintf("b%d", rapid.IntRange(0, 999).Draw(t, label+".bv")))})
+			}
+			break
+		}
 		for i := 0; i < n; i++ {
 			c.Batch = append(c.Batch, &regattapb.KeyValue{Key: p.Key(t, label+".bkey"), Value: Value(t, label+".b")})
 		}
 	case k == 13:
 		c.Type = regattapb.Command_DELETE_BATCH
 		n := rapid.IntRange(0, 4).Draw(t, label+".nbatch")
+		if rapid.IntRange(0, 7).Draw(t, label+".longbatch") == 0 {
+			n = rapid.IntRange(13, 40).Draw(t, label+".nlong")
+		}
 		for i := 0; i < n; i++ {
 			c.Batch = append(c.Batch, &regattapb.KeyValue{Key: p.Key(t, label+".bkey")})
 		}
@@ -267,6 +282,9 @@ func (p *Pool) Command(t *rapid.T, label string, o CmdOpts) *regattapb.Command {
 	case k <= 18 && o.Depth < 2:
 		c.Type = regattapb.Command_SEQUENCE
 		n := rapid.IntRange(0, 4).Draw(t, label+".nseq")
+		if o.Depth == 0 && rapid.IntRange(0, 7).Draw(t, label+".longseq") == 0 {
+			n = rapid.IntRange(13, 30).Draw(t, label+".nlongseq") // a replication proposal holds as many commands as fit 256 KiB
+		}
 		for i := 0; i < n; i++ {
 			sub := p.Command(t, label+".seq", CmdOpts{Depth: o.Depth + 1, NoTxn: o.NoTxn})
 			c.Sequence = append(c.Sequence, sub)
